@@ -333,3 +333,47 @@ def run_c08(run, scratch, seed, tier):
 
 
 PROPS["C08"] = {"props_file": "C08.v", "run": run_c08}
+
+
+# ---------------------------------------------------------------- C16
+def run_c16(run, scratch, seed, tier):
+    import gen_backtest
+    import gen_engine
+    bst = backtest_suite(run, scratch, seed, sizes(tier, 250, 5000), name="bankruptcy_paths",
+                         oracle_fns=[("C16 bankruptcy", oracles.c16_bankruptcy)], gen=gen_backtest.gen_bankrupt_cases,
+                         known=[("c16_nested_partial_liquidation", lambda c, ic, f: all(x.startswith("[K13") for x in f)),
+                                ("c16_zero_value_not_closed", lambda c, ic, f: all(x.startswith("[K5") or x.startswith("[K13") for x in f)
+                                 and any(x.startswith("[K5") for x in f))])
+    run.add_suite("bankruptcy_paths", bst)
+    run.cov["rule"] = ("leveraged / short weightings (flat and nested trees) with a price shock (x0.125 .. x8) on a random row, "
+                       "so that value crosses zero, touches it or stays positive; " + bst["rule"])
+    prof = gen_engine.Profile(big_loss=0.2, p_short=0.5, p_fi_root=0.15)
+    est = suites.engine_suite(run, scratch, seed, sizes(tier, 200, 4000), profile=prof)
+    run.add_suite("engine_histories", est)
+
+
+PROPS["C16"] = {"props_file": "C16.v", "run": run_c16}
+
+
+# ---------------------------------------------------------------- C17
+def gen_fi_cases(seed, n):
+    import random
+    import gen_backtest
+    rng = random.Random(seed * 13 + 1)
+    return [gen_backtest.gen_fi_case(rng, "f%05d" % i) for i in range(n)]
+
+
+def run_c17(run, scratch, seed, tier):
+    import gen_engine
+    bst = backtest_suite(run, scratch, seed, sizes(tier, 250, 4000), name="fi_suite",
+                         oracle_fns=[("C17 fixed income", oracles.c17_fixed_income), ("C07 ledger (carry)", oracles.c07_ledger)],
+                         gen=gen_fi_cases)
+    run.add_suite("fi_suite", bst)
+    run.cov["rule"] = ("FixedIncomeStrategy roots over mixes of the five security classes, irregular coupons, asymmetric "
+                       "holding costs, notional schedules via SetNotional, long and short targets, close / roll tables; " + bst["rule"])
+    prof = gen_engine.Profile(p_fi_root=0.8, p_bidoffer=0.5)
+    est = suites.engine_suite(run, scratch, seed, sizes(tier, 200, 4000), profile=prof)
+    run.add_suite("engine_histories_fi", est)
+
+
+PROPS["C17"] = {"props_file": "C17.v", "run": run_c17}
